@@ -95,3 +95,16 @@ mut("getitem_element_temporal_from_longitudinal", "src/vector/backends/numpy.py"
 mut("momentum_object_array_generic", "src/vector/backends/object.py", "        from vector.backends.numpy import MomentumNumpy3D\n\n        return MomentumNumpy3D(", "        from vector.backends.numpy import VectorNumpy3D\n\n        return VectorNumpy3D(", ["C19"], "numpy.asanyarray(MomentumObject3D) loses the flavor")
 mut("setstate_drops_dict", "src/vector/backends/numpy.py", "        self.__dict__.update(state[-1])\n", "", ["C19"], "unpickled arrays lose their coordinate-type attributes")
 mut("getitem_str_energy_maps_to_tau", "src/vector/backends/numpy.py", "    if isinstance(where, str):\n        if is_momentum:\n            where = _repr_momentum_to_generic.get(where, where)\n        return array.view(numpy.ndarray)[where]", "    if isinstance(where, str):\n        if is_momentum:\n            where = {**_repr_momentum_to_generic, \"e\": \"tau\"}.get(where, where)\n        return array.view(numpy.ndarray)[where]", ["C19", "C14"], "arr['e'] returns the tau column")
+
+# --- global state and threads (C20) ----------------------------------------------------------------------------------------
+mut("numpy_wrap_module_scratch_buffer", "src/vector/backends/numpy.py",
+    ["T = typing.TypeVar(\"T\", bound=\"VectorNumpy\")", "            out = numpy.empty(_shape_of(result), dtype=dtype)", "            return out.view(cls.ProjectionClass"],
+    ["_SCRATCH: dict = {}\nT = typing.TypeVar(\"T\", bound=\"VectorNumpy\")", "            out = _SCRATCH.setdefault(\n                (_shape_of(result), str(dtype)), numpy.empty(_shape_of(result), dtype=dtype)\n            )", "            return out.copy().view(cls.ProjectionClass"],
+    ["C20"], "result buffers hoisted to a module-level scratch cache (copied on return): sequential behaviour unchanged, a preemption between fill and copy corrupts results", count=None)
+mut("errstate_replaced_by_seterr", "src/vector/_compute/planar/rho.py", "    with numpy.errstate(all=\"ignore\"):\n", "    numpy.seterr(all=\"ignore\")\n    if True:\n", ["C20"], "one dispatch function silences floating-point errors with an un-restored numpy.seterr")
+mut("register_awkward_not_idempotent", "src/vector/__init__.py", "    awkward.behavior.update(vector.backends.awkward.behavior)\n", "    awkward.behavior.update(vector.backends.awkward.behavior)\n    awkward.behavior[\"__vector_registration__\"] = object()\n", ["C20"], "every register_awkward() call installs a fresh marker object")
+mut("array_ctor_leaks_warning_filter", "src/vector/backends/awkward_constructors.py", "    array_type = akarray.type\n", "    import warnings\n\n    warnings.simplefilter(\"ignore\", DeprecationWarning)\n    array_type = akarray.type\n", ["C20"], "vector.Array() installs a warnings filter and never removes it")
+mut("object_wrap_shared_scratch_list", "src/vector/backends/object.py",
+    ["def _replace_data(obj: typing.Any, result: typing.Any) -> typing.Any:", "            azcoords = _coord_object_type[returns[0]](result[0], result[1])\n            lcoords = _coord_object_type[returns[1]](result[2])\n            tcoords = _coord_object_type[returns[2]](result[3])"],
+    ["_LAST: list = [None]\n\n\ndef _replace_data(obj: typing.Any, result: typing.Any) -> typing.Any:", "            _LAST[0] = result\n            azcoords = _coord_object_type[returns[0]](_LAST[0][0], _LAST[0][1])\n            lcoords = _coord_object_type[returns[1]](_LAST[0][2])\n            tcoords = _coord_object_type[returns[2]](_LAST[0][3])"],
+    ["C20"], "4D object results are staged in a module-level slot before being wrapped", count=None)
